@@ -104,12 +104,37 @@ def _install_fast_finder():
 _PREFIX = 'matched_markets.methodology.'
 
 
+_KNOWN_NAMES = {}
+
+
+def _methodology_names():
+  """Every importable name under matched_markets.methodology of the tree
+  under test (from the directory, once per process): scanning all of
+  sys.modules for the prefix at every swap was a third of a diag run."""
+  root = methodology_dir()
+  names = _KNOWN_NAMES.get(root)
+  if names is None:
+    names = []
+    for d, dirs, files in os.walk(root):
+      dirs[:] = [x for x in dirs if x != '__pycache__']
+      rel = os.path.relpath(d, root)
+      parts = [] if rel == '.' else rel.split(os.sep)
+      for x in dirs:
+        names.append(_PREFIX + '.'.join(parts + [x]))
+      for f in files:
+        if f.endswith('.py') and f != '__init__.py':
+          names.append(_PREFIX + '.'.join(parts + [f[:-3]]))
+    _KNOWN_NAMES[root] = names
+  return names
+
+
 def _purge_methodology(pkg):
   """Detach the current module set; returns (sys.modules entries, attrs)."""
-  mods = {n: sys.modules[n] for n in list(sys.modules)
-          if n.startswith(_PREFIX)}
-  for n in mods:
-    del sys.modules[n]
+  mods = {}
+  for n in _methodology_names():
+    m = sys.modules.pop(n, None)
+    if m is not None:
+      mods[n] = m
   attrs = {a: v for a, v in vars(pkg).items() if not a.startswith('__')}
   for a in attrs:
     delattr(pkg, a)
